@@ -922,3 +922,31 @@ func ReturnError(ret *ssa.Return) ssa.Value {
 	}
 	return v
 }
+
+// CmpConst normalises a comparison with one constant integer operand to `x op c` (constant on the
+// right), flipping the operator when the constant was on the left.
+func CmpConst(bo *ssa.BinOp) (x ssa.Value, op token.Token, c int64, ok bool) {
+	switch bo.Op {
+	case token.LSS, token.LEQ, token.GTR, token.GEQ, token.EQL, token.NEQ:
+	default:
+		return nil, 0, 0, false
+	}
+	if k, isC := ConstInt(bo.Y); isC {
+		return bo.X, bo.Op, k, true
+	}
+	if k, isC := ConstInt(bo.X); isC {
+		op := bo.Op
+		switch op {
+		case token.LSS:
+			op = token.GTR
+		case token.GTR:
+			op = token.LSS
+		case token.LEQ:
+			op = token.GEQ
+		case token.GEQ:
+			op = token.LEQ
+		}
+		return bo.Y, op, k, true
+	}
+	return nil, 0, 0, false
+}
